@@ -149,7 +149,7 @@ PROPS["C16"] = {'assumptions': ['HKDF-SHA256 is injective on the secrets in use 
              'resumption handshake modelled as: both ends key their streams from their cache entries, data delivered iff the keys agree (symbolic AEAD); tied '
              'to the code by real client/server handshakes']}
 
-PROPS["C18"] = {'assumptions': ["the transport delivers the client's result code (otherwise see client_cleanup_fails)",
+PROPS["C18"] = {'assumptions': ["the transport delivers the client's result code (otherwise the directory may stay: observation recorded by the engine, outside the quantifier)",
                  '/tmp is a real directory; mkdir/rmdir/lstat behave as documented'],
  'engines': ['fspath'],
  'lean': 'CedarProps.C18',
@@ -158,8 +158,8 @@ PROPS["C18"] = {'assumptions': ["the transport delivers the client's result code
  'level_text': "validate_shape (accepted => path = base/leaf, single safe component, recognised shape, address-qualified names only for the connection's own "
                'endpoint), addr_qualified_names_peer, rejects_everything_else with rejects_{relative,noncanonical,nested,other_parent,traversal}, '
                'client_effects / client_mkdir_confined / at_most_one_mkdir / client_refuses / client_no_path_no_effect (every first message, every '
-               'environment), client_cleanup_partial (every continuation once the result code was handed to the transport), client_cleanup_fails (recorded '
-               'observation: a failing send of the result code leaves the directory), server_accepts_only / server_identity_only_on_accept / '
+               'environment), client_cleanup (every environment and every continuation, a cancelled context while waiting for the verdict included: whatever '
+               'was created is removed), server_accepts_only / server_identity_only_on_accept / '
                'server_success_means_verdict_zero: kernel-checked over the model. Tied to the code by the fspath engine: path grammar + mutations through '
                'validateFSAuthPath, fsAddrLeaf, verifyFSPathEndpoint (hooks), filepath and net.ParseIP against the transcriptions, whole client exchanges '
                'against a scripted server with before / at-reply / after filesystem snapshots, whole server exchanges against 25 kinds of object left at the '
